@@ -4,7 +4,7 @@
 From Coq Require Import Extraction ExtrOcamlBasic.
 From GV Require Import Tables.ObsTypes Tables.Lookup Gen.Obs Tables.Enum.
 From GV Require Import Tables.Product Tables.RegFactory Tables.RegList Api.Api Api.Maps Api.Float.
-From GV Require Import Ble.GoSem Ble.Layout Gen.BleImpl Ble.Handler.
+From GV Require Import Ble.GoSem Ble.Layout Gen.BleImpl Ble.Handler Ble.Aes.
 From GV Require Import Base.Bytes Base.Hex Base.LE Vedirect.Frame Vedirect.Port Vedirect.Driver Vedirect.Judge Vedirect.Resync.
 Extraction Language OCaml.
 Set Extraction KeepSingleton.
@@ -28,4 +28,4 @@ Extraction "gvcore.ml"
   DecodeMultiRsRecord fields_MultiRsRecord DecodeSmartBatteryProtectRecord fields_SmartBatteryProtectRecord
   DecodeSmartLithiumRecord fields_SmartLithiumRecord DecodeSolarChargeRecord fields_SolarChargerRecord
   DecodeVeBusRecord fields_VeBusRecord
-  handle pkcs7 ctr_decrypt get_device_config bluez_addr_bytes render_mac.
+  handle pkcs7 ctr_decrypt get_device_config bluez_addr_bytes render_mac aes_encrypt.
